@@ -31,6 +31,9 @@ def run_ops(ck, drv, cases, want="valid", label="ops", trace_module="TraceOps", 
         ev = m["event"]
         exp = m["expect"]
         got = ev.get("res", {})
+        if str(got.get("crash", "")).startswith("driver:"):
+            ck.extra["skipped_unsupported"] = ck.extra.get("skipped_unsupported", 0) + 1      # combination the API rejects at compile time
+            continue
         eok = bool(exp.get("ok"))
         if want == "valid" and not eok:
             continue
